@@ -10,6 +10,7 @@ fn input_len(n: usize) {
     unsafe {
         crate::vklib::C12_INPUT_LEN = n;
     }
+    native_reservation_reset();
 }
 
 /// image cel, raw (type 0) or compressed (type 2), declared width x height over all of u16 x u16
@@ -19,6 +20,7 @@ fn cel_declared_size(cel_type: u8, fmt: PixelFormat) {
     buf[8] = 0;
     input_len(24);
     let r = crate::cel::parse_chunk(&buf, fmt);
+    native_reservation_check();
     core::mem::forget(r);
 }
 #[kani::proof]
@@ -37,6 +39,7 @@ fn c12_q_external_files_declared_count() {
     let buf: [u8; 12] = kani::any();
     input_len(12);
     let r = ExternalFile::parse_chunk(&buf);
+    native_reservation_check();
     core::mem::forget(r);
 }
 /// tags chunk: tag count over all of u16
@@ -48,6 +51,7 @@ fn c12_q_tags_declared_count() {
     let buf: [u8; 10] = kani::any();
     input_len(10);
     let r = crate::tags::parse_chunk(&buf);
+    native_reservation_check();
     core::mem::forget(r);
 }
 
@@ -70,5 +74,45 @@ fn c12_q_tileset_declared_sizes() {
     input_len(38);
     let r = crate::tileset::Tileset::<RawPixels>::parse_chunk(&buf, PixelFormat::Rgba);
     kani::cover!(rd32(&buf, 34) == 0x4000_0000, "inflated compressed-length field");
+    native_reservation_check();
     core::mem::forget(r);
+}
+
+/// tileset chunk whose compressed-length field is inflated to a concrete boundary value (type maximum; just above the
+/// 64 MiB allowance), tile count and tile size symbolic: no zero-filled reservation of that size. (With the symbolic
+/// field of c12_q_tileset_declared_sizes a reservation sized by it forks the checking stub once per served size and
+/// the query runs out of memory; concrete boundary values are what the property's quantifier names.)
+fn tileset_compressed_length(v: u32) {
+    let mut buf: [u8; 38] = kani::any();
+    buf[4] = 2;
+    buf[5] = 0;
+    buf[6] = 0;
+    buf[7] = 0;
+    buf[32] = 0;
+    buf[33] = 0;
+    buf[34] = v as u8;
+    buf[35] = (v >> 8) as u8;
+    buf[36] = (v >> 16) as u8;
+    buf[37] = (v >> 24) as u8;
+    input_len(38);
+    let r = crate::tileset::Tileset::<RawPixels>::parse_chunk(&buf, PixelFormat::Rgba);
+    kani::cover!(rd32(&buf, 34) == v, "inflated compressed-length field");
+    native_reservation_check();
+    core::mem::forget(r);
+}
+#[kani::proof]
+#[kani::unwind(10)]
+#[kani::stub(alloc::fmt::format, crate::vklib::empty_format)]
+#[kani::stub(alloc::vec::from_elem, crate::vklib::checking_from_elem)]
+#[kani::stub(crate::reader::AseReader::unzip, crate::vklib::stub_unzip_identity)]
+fn c12_q_tileset_compressed_length_max() {
+    tileset_compressed_length(0xFFFF_FFFF);
+}
+#[kani::proof]
+#[kani::unwind(10)]
+#[kani::stub(alloc::fmt::format, crate::vklib::empty_format)]
+#[kani::stub(alloc::vec::from_elem, crate::vklib::checking_from_elem)]
+#[kani::stub(crate::reader::AseReader::unzip, crate::vklib::stub_unzip_identity)]
+fn c12_t_tileset_compressed_length_just_above_allowance() {
+    tileset_compressed_length((64 << 20) + 8192 * 38 + 1);
 }
